@@ -1,5 +1,4 @@
 SPECIFICATION TSpec
-CONSTANT Strict = FALSE
 INVARIANTS C17_Outputs C17_Live
 POSTCONDITION Accepted
 CHECK_DEADLOCK FALSE
